@@ -10,9 +10,20 @@ tie:    the REAL dora-runtime/src/gc/swiper/terminator.rs is compiled unmodified
 oracle: on the real code, per schedule: `try_terminate` returned true while the pool is non-empty or another
         worker still works; deadlock; an assert!/debug_assert! of terminator.rs firing; work or a `false`
         after the first `true`; items processed != items created
+marking (last sentence, "every reachable object is processed exactly once"):
+proof:  same Props file, namespace Dora.Mark.C12, over lean/DoraModel/Term/Mark.lean (marking.rs statement by statement)
+tie:    cfg-gated hook hooks/c12_marklog.patch (dora-runtime/src/gc/swiper/verif_marklog.rs): every marking run of real
+        collections (generational collector, 1/2/4/8 marking tasks) logs per task what it popped, traced, won, pushed and
+        shared; drv_c12mark (lean/DoraModel/Term/MarkCheck.lean) runs every task's records through the model's own step
+        function `stepW` (projection acceptance) and evaluates the theorems' conclusions on the whole run, against the
+        pre-collection heap dump of C03's hook.  Skipped (and said so in the evidence) while the hook is not in /repo.
 """
+import concurrent.futures as cf
+import gzip
 import json
 import os
+import random
+import re
 import shutil
 
 from . import common as C
@@ -20,6 +31,187 @@ from . import common as C
 PROP_MODULE = "DoraModel.Props.C12"
 PROP_FILE = "DoraModel/Props/C12.lean"
 TERMINATOR = os.path.join(C.REPO, "dora-runtime/src/gc/swiper/terminator.rs")
+
+
+MARKING_RS = os.path.join(C.REPO, "dora-runtime/src/gc/swiper/marking.rs")
+MARK_HOOK_MARK = "verif_marklog"
+MARK_CORPUS = os.path.join(C.VERIF, "corpus", "C12")
+MARK_KEYS = ("oracle:processed-twice", "oracle:reachable-not-processed", "oracle:processed-unreachable",
+             "oracle:processed-unmarked", "oracle:marked-twice", "corr:marklog")
+
+
+def marklog_jobs(ctx):
+    """(program path, args, DORA_FLAGS, marking tasks).  Allocation-heavy programs with small heaps (the debug runtime is
+    slow): the C12 graph workload (object array of nodes with cycles and sharing, forced full collections) with every
+    worker count, and C03's corpus programs at their small scale under --gc-stress with a worker count drawn from the seed."""
+    rng = random.Random("%s|marklog" % ctx.seed)
+    quick = ctx.tier == "quick"
+    jobs = []
+    for f in sorted(os.listdir(MARK_CORPUS)) if os.path.isdir(MARK_CORPUS) else []:
+        if not f.endswith(".dora"):
+            continue
+        for n in ([600, 2500] if quick else [300, 700, 3000, 12000]):
+            for w in (1, 2, 4, 8):
+                jobs.append((os.path.join(MARK_CORPUS, f), [str(n + rng.randrange(50))],
+                             "--gc-worker=%d --max-heap-size=64M" % w, w))
+    c03dir = os.path.join(C.VERIF, "corpus", "C03")
+    progs = [f for f in sorted(os.listdir(c03dir)) if f.endswith(".dora") and not f.startswith("min_")
+             and not f.startswith("threads")]
+    if quick:
+        rng.shuffle(progs)
+        progs = progs[:3]
+    for f in progs:
+        path = os.path.join(c03dir, f)
+        m = re.search(r"//= c03 .*small=(\d+)", open(path).read())
+        small = m.group(1) if m else "3"
+        for w in ([rng.choice((2, 4, 8))] if quick else [1, 2, 4, 8]):
+            jobs.append((path, [small], "--gc-worker=%d --max-heap-size=8M --gc-young-size=1M --gc-stress" % w, w))
+    return jobs
+
+
+def marklog_verdicts(drv, logfile):
+    """-> (rc, [(status line, [finding lines])])"""
+    rc, out, err = C.sh2([drv, logfile], timeout=900)
+    runs = []
+    for line in out.splitlines():
+        if line.startswith("ok ") or line.startswith("bad "):
+            runs.append((line, []))
+        elif line.startswith("finding ") and runs:
+            runs[-1][1].append(line[len("finding "):])
+        elif line.startswith("parse-error") or line.startswith("incomplete"):
+            runs.append((line, []))
+    return rc, runs, err
+
+
+def report_marklog(ctx, ml, head, finds, where, logcopy):
+    for fl in finds:
+        key, _, text = fl.partition(" ")
+        if key not in MARK_KEYS:
+            key = "corr:marklog"
+        ml["oracle_failures" if key.startswith("oracle:") else "disagreements"] += 1
+        ctx.finding(key, dict(kind="marklog", run=head, where=where, log=logcopy,
+                              how_to_replay="./check C12 --replay <this file>   (= drv_c12mark <log>; the log of the "
+                                            "real run is stored next to this file, a new run of the program interleaves differently)"),
+                    "%s  [%s; %s]" % (text, where, head))
+
+
+def marklog_leg(ctx):
+    """Real collections: every logged marking run must be accepted. Returns the evidence dict."""
+    tree = os.environ.get("VERIF_C12_HOOK_TREE") or C.REPO
+    ml = dict(status="ran", programs=0, runs=0, marking_runs_checked=0, with_heap_dump=0, processed_objects=0,
+              traced_fields=0, lost_marks=0, deque_pushes=0, injector_shares=0, runs_with_several_working_tasks=0,
+              by_workers={}, disagreements=0, oracle_failures=0, samples=[])
+    try:
+        present = MARK_HOOK_MARK in open(os.path.join(tree, "dora-runtime/src/gc/swiper/marking.rs")).read()
+    except OSError:
+        present = False
+    if not present:
+        ml["status"] = ("skipped: the hook /verif/hooks/c12_marklog.patch is not applied to %s (no `%s` in marking.rs); "
+                        "the marking model is then tied to the code only by reading" % (tree, MARK_HOOK_MARK))
+        C.log("marklog leg skipped: hook not present in " + tree)
+        return ml
+    from . import c03
+    drv, dlog = C.lean_exe("drv_c12mark")
+    if drv is None:
+        raise RuntimeError("driver build failed:\n" + dlog[-3000:])
+    pre = os.environ.get("VERIF_C12_TC_VERIF")        # testing aid: a prebuilt tool chain dir (bin/dora …) with the hook
+    try:
+        if pre:
+            tcv = dict(dir=pre, dora=os.path.join(pre, "bin", "dora"), hash="x" + c03.src_sha(os.path.join(pre, "bin", "dora")), log="", tree=tree)
+        else:
+            tc = C.toolchain(need_boots=True)
+            tcv = c03.toolchain_verif(tc, tree)
+    except RuntimeError as e:
+        ctx.finding("corr:build-verif-toolchain", dict(kind="correspondence", log=str(e)[-3000:]),
+                    "the tool chain does not build with --cfg %s" % C.GUARD, no_input=True)
+        ml["status"] = "failed: tool chain with the hook does not build"
+        return ml
+    work = os.path.join(C.BUILD, "tmp", "c12_mark_%d" % os.getpid())
+    shutil.rmtree(work, ignore_errors=True)
+    os.makedirs(work)
+    jobs = marklog_jobs(ctx)
+
+    def one(ij):
+        i, (path, args, flags, w) = ij
+        exe, log = c03.build(tcv, path, "boots", "swiper")
+        if exe is None:
+            return None, "build failed: " + log[-300:], None
+        lf = os.path.join(work, "m%d.log" % i)
+        r = c03.run_exe(exe, args, flags, 300, extra_env={"DORA_VERIF_MARKLOG": lf, "DORA_VERIF_HEAPDUMP": lf})
+        if not os.path.exists(lf):
+            return r, None, None
+        rc, runs, err = marklog_verdicts(drv, lf)
+        return r, (rc, runs, err), lf
+
+    try:
+        with cf.ThreadPoolExecutor(max_workers=int(os.environ.get("VERIF_C12_JOBS", "6"))) as ex:
+            results = list(ex.map(one, enumerate(jobs)))
+        seen_prog = set()
+        for (path, args, flags, w), (r, verdict, lf) in zip(jobs, results):
+            where = "%s %s DORA_FLAGS='%s'" % (os.path.relpath(path, C.VERIF), " ".join(args), flags)
+            if r is None:
+                ctx.notes.append("marklog: %s: %s" % (where, verdict))
+                continue
+            ml["runs"] += 1
+            seen_prog.add(path)
+            if r["timeout"] or r["rc"] != 0:
+                # a crashing collection is C03's finding; here only say that this run gave no complete log
+                ctx.notes.append("marklog: %s ended with rc=%s timeout=%s" % (where, r["rc"], r["timeout"]))
+            if verdict is None:
+                continue
+            rc, runs, err = verdict
+            logcopy = None
+            for head, finds in runs:
+                if head.startswith("ok "):
+                    m = dict(kv.split("=") for kv in head.split()[1:])
+                    ml["marking_runs_checked"] += 1
+                    ml["with_heap_dump"] += int(m["dump"])
+                    ml["processed_objects"] += int(m["processed"])
+                    ml["traced_fields"] += int(m["traced"])
+                    ml["lost_marks"] += int(m["lost"])
+                    ml["deque_pushes"] += int(m["dequePushes"])
+                    ml["injector_shares"] += int(m["shared"])
+                    ml["runs_with_several_working_tasks"] += int(int(m["tasksWithWork"]) > 1)
+                    ml["by_workers"][m["workers"]] = ml["by_workers"].get(m["workers"], 0) + 1
+                    if len(ml["samples"]) < 4 and int(m["tasksWithWork"]) > 1:
+                        ml["samples"].append(dict(request=where, response=head))
+                elif head.startswith("bad "):
+                    ml["marking_runs_checked"] += 1
+                    if logcopy is None:
+                        os.makedirs(os.path.join(C.REPLAYS, "C12"), exist_ok=True)
+                        logcopy = os.path.join(C.REPLAYS, "C12", "marklog_%s_%d.log.gz" % (ctx.tier, ml["runs"]))
+                        with open(lf, "rb") as fi, gzip.open(logcopy, "wb") as fo:
+                            shutil.copyfileobj(fi, fo)
+                    report_marklog(ctx, ml, head, finds, where, logcopy)
+                elif head.startswith("parse-error"):
+                    ml["disagreements"] += 1
+                    ctx.finding("corr:marklog", dict(kind="marklog", where=where, line=head), "the mark log cannot be parsed: " + head,
+                                no_input=True)
+                # "incomplete…": the process ended inside a collection; nothing to check
+        ml["programs"] = len(seen_prog)
+        if ml["runs"] and ml["marking_runs_checked"] == 0:
+            ctx.finding("corr:marklog", dict(kind="marklog"), "no marking run was logged although the hook is present", no_input=True)
+    finally:
+        shutil.rmtree(work, ignore_errors=True)
+    return ml
+
+
+def marklog_replay(ctx, r):
+    drv, dlog = C.lean_exe("drv_c12mark")
+    ml = dict(disagreements=0, oracle_failures=0)
+    tmp = os.path.join(C.BUILD, "tmp", "c12_mark_replay_%d.log" % os.getpid())
+    os.makedirs(os.path.dirname(tmp), exist_ok=True)
+    with gzip.open(r["log"], "rb") as fi, open(tmp, "wb") as fo:
+        shutil.copyfileobj(fi, fo)
+    try:
+        rc, runs, err = marklog_verdicts(drv, tmp)
+        for head, finds in runs:
+            if head.startswith("bad "):
+                report_marklog(ctx, ml, head, finds, r.get("where", "?"), r["log"])
+    finally:
+        os.unlink(tmp)
+    C.log("replay: %d marking runs in the stored log, %d findings" % (len(runs), ml["disagreements"] + ml["oracle_failures"]))
+    return ml
 
 
 def replay_obj(scenario, spur, choices, **kw):
@@ -85,8 +277,13 @@ def run(ctx):
     mstats = {}
     accepted = 0
     tmp = os.path.join(C.BUILD, "tmp", "c12_%d" % os.getpid())
-    if hbin and ctx.replay:
-        one_replay(ctx, hbin, drv, json.load(open(ctx.replay)), st)
+    ml = dict(status="not run (replay)")
+    rj = json.load(open(ctx.replay)) if ctx.replay else None
+    if rj is not None and rj.get("kind") == "marklog":
+        ml = marklog_replay(ctx, rj)
+        st["evaluations"] += 1
+    elif hbin and ctx.replay:
+        one_replay(ctx, hbin, drv, rj, st)
     elif hbin:
         os.makedirs(tmp, exist_ok=True)
         try:
@@ -139,6 +336,10 @@ def run(ctx):
                                 no_input=key is None)
         finally:
             shutil.rmtree(tmp, ignore_errors=True)
+    if not ctx.replay:
+        ml = marklog_leg(ctx)
+    st["disagreements"] += ml.get("disagreements", 0)
+    st["oracle_failures"] += ml.get("oracle_failures", 0)
     if not po["build_ok"] or po["failed"]:
         found = st["oracle_failures"] > 0
         ctx.finding("proof:C12", dict(kind="proof", failed=po["failed"], log=po.get("build_log_tail", "")),
@@ -150,7 +351,14 @@ def run(ctx):
                    "harness/crates/sync_shim (deterministic scheduler + shim), h_c12, drv_c12, checks/c12.py",
                    "parking_lot mutex/condvar contract (no lost notification, spurious wake-ups possible); "
                    "sequentially consistent interleaving semantics for the Relaxed atomics (DESIGN §5)",
-                   "the work pool is abstract (counters); crossbeam deque/injector are not executed here"],
+                   "termination model: the work pool is abstract (counters); marking model (Term/Mark.lean): crossbeam-deque's "
+                   "Worker/Stealer/Injector are assumed to be linearizable multisets (push/pop/steal_batch_and_pop atomic, a "
+                   "steal removes exactly what it hands out, batches arbitrary); try_mark is one atomic step (bit algebra: C03)",
+                   "hand-written model DoraModel/Term/Mark.lean tied to marking.rs by the mark-log hook (hooks/c12_marklog.patch, "
+                   "field `marking` below) when the hook is in /repo; MarkCheck.lean (projection replay through stepW, "
+                   "conclusion checks, reachability by depth-first search over the heap dump), drv_c12mark",
+                   "`Linked` (the termination model's counters are the marking model's pool sizes) is a stated hypothesis of "
+                   "every_reachable_object_processed_exactly_once_at_termination, not derived from a product system"],
                theorems=po["theorems"],
                evaluations=st["evaluations"],
                distinct_nontrivial=summary.get("nontrivial", 0),
@@ -168,10 +376,19 @@ def run(ctx):
                                "(bounded exhaustiveness only; the unbounded claim is the theorems')",
                histogram=summary.get("histogram", {}),
                samples=summary.get("samples") or [dict(note="replay run" if ctx.replay else "no sample")],
+               marking=ml,
+               marking_rule="one evaluation = one marking run of a real collection (generational collector, debug runtime built "
+                            "with --cfg dinfuehr_dora_verif, 1/2/4/8 marking tasks): every task's records are accepted by the model's "
+                            "step function on its projection, no object processed twice, no mark won twice, won = processed, and "
+                            "(with the heap dump) fields traced = fields of the object, processed = reachable outside the read-only space; "
+                            "non-trivial = more than one task processed objects",
                disagreements=st["disagreements"], oracle_failures=st["oracle_failures"])
     ctx.write_evidence("proof", cov, assumptions=[
         "atomics are modelled with interleaving (SeqCst) semantics although the code uses Relaxed; both counters are "
         "only written under the lock, the unlocked reads of wake_up are modelled as possibly stale",
         "worker loops are abstracted to: pop own / pop shared / steal / push / wake_up at any time / try_terminate only "
         "after reading shared = 0 with own = 0 — what MarkingTask::run and CopyTask::trace_gray_objects do",
-        "'processed exactly once' is covered at pool level only (items are counted; the mark-bit CAS belongs to C03)"])
+        "'processed exactly once': proved on the marking model for every object graph, worker count, interleaving and "
+        "stolen batch; the evacuation analogue (minor.rs, forwarding-pointer CAS) is not modelled; the real marker is compared "
+        "per collection through the mark log (no global order between tasks and no batch contents are logged, so the log is "
+        "checked by per-task projection acceptance plus the theorems' conclusions, not as one linearised trace)"])
